@@ -228,7 +228,7 @@ def literal_end(prop="C02"):
         return len(line)
 
     def inputs():
-        for b in ("x = 'a", 'y = "b', "z = 'it''s"):
+        for b in ("x = 'a", 'y = "b', "z = 'it''s", 'u = "it\'s all ', "w = 'say \"hi\" to ", 'v = "a\'b\'c'):
             for s in lex.strings("a'\"!", 5):
                 yield (b, s)
     rp, search = _oracle_pair(real, oracle, inputs, "_literal_end")
